@@ -217,10 +217,14 @@ def replay(case):
     i = cfg["point"]
     phi = Phi[:, i]
     fb_ref = np.array([(np.conj(p.ket) @ Lh @ phi) / (np.conj(p.ket) @ phi) for Lh in sec.chol_ops(chol)])
+    # replay the history too: the dictionary was prepared for another set of Cholesky matrices before
+    dchol = np.array([al.dense_sym(n, seed, 90 + g, 0.7) for g in range(len(chol))])
+    gridmc.build_ham_data(n, 0.0, np.zeros((2, n, n)), dchol, trial, p.wave_data)
     hd = gridmc.build_ham_data(n, 0.0, np.zeros((2, n, n)), chol, trial, p.wave_data)
     sl = slice(i, i + 1)
     if cfg.get("entry") in ("batched", "eager"):  # batch-order defects only show on the whole batch
         tr = gridmc.with_batch(trial, cfg.get("n_batch", 1))
+        gridmc.build_ham_data(n, 0.0, np.zeros((2, n, n)), dchol, tr, p.wave_data)
         hd = gridmc.build_ham_data(n, 0.0, np.zeros((2, n, n)), chol, tr, p.wave_data)
         fb = eval_fb(tr, p.wave_data, hd, mode, cfg["entry"], Wa, Wb)[i]
     else:
